@@ -124,6 +124,9 @@ func (its *PushPullHandler) validatePushPullPack() errors.OrdaError {
 
 func (its *PushPullHandler) initialize(retCh chan *model.PushPullPack) errors.OrdaError {
 	its.retCh = retCh
+	if its.gotPushPullPack.CheckPoint == nil {
+		its.gotPushPullPack.CheckPoint = model.NewCheckPoint()
+	}
 	its.resPushPullPack = its.gotPushPullPack.GetResponsePushPullPack()
 	its.resPushPullPack.Option = uint32(model.PushPullBitNormal)
 
@@ -134,8 +137,16 @@ func (its *PushPullHandler) initialize(retCh chan *model.PushPullPack) errors.Or
 func (its *PushPullHandler) finalize() {
 	if r := recover(); r != nil {
 		its.ctx.L().Errorf("recover panic [%v]: %v", r, string(debug.Stack()))
-
-		return
+		// the caller waits for an answer and the key is locked: answer with an error instead of returning
+		its.err = errors.PushPullAbortionOfServer.New(its.ctx.L(), fmt.Sprintf("%v", r))
+		if its.resPushPullPack == nil {
+			its.resPushPullPack = &model.PushPullPack{
+				Key:  its.gotPushPullPack.GetKey(),
+				DUID: its.gotPushPullPack.GetDUID(),
+				Era:  its.gotPushPullPack.GetEra(),
+				Type: its.gotPushPullPack.GetType(),
+			}
+		}
 	}
 	defer its.lock.Unlock()
 	if its.err == nil {
